@@ -337,7 +337,7 @@ class Column:
         return p_list
 
     def process_type_to_column_data(self, p_list, p):
-        if "IDENTITY" in p_list[-1]["type"].upper():
+        if "IDENTITY" in p_list[-1]["type"].upper().split():
             split_type = p_list[-1]["type"].split()
             del p_list[-1]
             if len(split_type) == 1:
